@@ -136,10 +136,24 @@ def assumptions(prop, rec):
 
 # --------------------------------------------------------------------------
 
+def is_check(e):
+    return e.get("op") in ("Check", "Sweep")
+
+
 RECIPES = {
     "C01": dict(mc=[mc_codec(False)], record=gen_recorder("C01"), props=["C01"], speaks=valid_enc,
                 rule="NewMnemonicByEntropy calls with a valid size and supported language, distinct by (entropy, language); families: Latin square "
                      "(every (position,index) pair), every index at the last position, every first SHA-256 byte, 0/1 runs, single bits, random"),
+    "C02": dict(mc=[mc_codec(True)], record=gen_recorder("C02"), props=["C02"],
+                speaks=lambda e: is_check(e) and (e.get("gen") or e.get("op") == "Sweep"),
+                rule="mnemonics generated by NewMnemonicByEntropy / NewMnemonic fed back into CheckMnemonic+IsMnemonicValid, and last-word sweeps "
+                     "(the 2^(11-CS) predicted words must all be accepted); distinct by (sentence, language); canonical validity is decided by TLC from the input alone"),
+    "C03": dict(mc=[mc_codec(True)], record=gen_recorder("C03"), props=["C03"], speaks=is_check,
+                rule="CheckMnemonic/IsMnemonicValid verdicts on damaged sentences (all 2047 substitutions at a position, transpositions, count changes, other lists, "
+                     "case/affix damage, separators, byte fuzz) and sweeps of all 2048 last words; distinct by (input, language)"),
+    "C15": dict(mc=[mc_codec(False)], record=gen_recorder("C15"), props=["C15"], speaks=lambda e: e.get("op") == "Check",
+                rule="CheckMnemonic error values on sentences with one class of defect (counts 0..30, unknown tokens at every position, wrong last word) "
+                     "and on the C03 mutation classes; distinct by (input, language)"),
     "C05": dict(mc=[mc_codec(False)], record=gen_recorder("C05"), props=["C05"], speaks=valid_enc,
                 rule="NewMnemonicByEntropy outputs decoded by the specification's decoder; distinct by (entropy, language); includes all single-bit flips of seeded bases"),
 }
